@@ -52,6 +52,12 @@ META = {
     "assumptions": ["AD evaluation orders the rows of one equation by grid in mdg.subdomains()/interfaces() order (set_equation docstring)",
                     "self._equations is only filled by set_equation (insertion order == order the equations were set)",
                     "projection_to sorts its indices (C05 R3)"],
+    "accepted_forms": ["_parse_equations: loop+insert, dict/generator comprehension or dict.fromkeys over self._equations",
+                       "restricted rows: loop+append or list comprehension over the image-space dict (keys or items), inline or in one private helper",
+                       "assemble loops: zip of names/rows/results in any order, (name,row) pairs from <dict>.items(), list comprehensions over the parsed dict; "
+                       "the loop body is interpreted once per case (row selector given / absent): if/else in either polarity, conditional expressions, "
+                       "temporaries assigned per branch and appended after the branch; len(x)/x.size/len(rhs[-1]) lengths; start advanced by += length or "
+                       "last index + 1; early return of the residual-only arm with its own concatenation"],
     "technique": "set-type inference with use-site classification + dataflow/shape matching of the parser loops and of the lock-step appends",
 }
 MIN_INSTANCES = {"R1": 8, "R2": 10, "R3": 16, "R4": 5}
@@ -335,6 +341,18 @@ def _check_parse_equations(ctx: Ctx, rel: str, fn: ast.FunctionDef) -> None:
             comp = v
         elif isinstance(v, ast.Call) and u(v.func) == "dict" and len(v.args) == 1 and isinstance(v.args[0], (ast.GeneratorExp, ast.ListComp)):
             comp = v.args[0]
+        if isinstance(v, ast.Call) and u(v.func) == "dict.fromkeys" and 1 <= len(v.args) <= 2:
+            src = _strip_keys(v.args[0])
+            ok = _is_self_attr(src, "_equations")
+            why = "insertion order of self._equations"
+            if not ok:
+                why = _user_ordered(fn, v.args[0])
+                if why is None:
+                    raise Undecided(f"{q}: dict.fromkeys over {u(v.args[0])}")
+            ctx.check("R2", ok, rel, q, r,
+                      f"row blocks must come in the order the equations were set (iterate self._equations): {why}",
+                      construct=f"return dict over {u(v.args[0])}", facts={"source": u(v.args[0])})
+            continue
         if comp is not None:
             gen = comp.generators[0]
             src = _strip_keys(gen.iter)
@@ -385,23 +403,53 @@ def _check_parse_equations(ctx: Ctx, rel: str, fn: ast.FunctionDef) -> None:
     ctx.sample({"rule": "R2", "function": "_parse_equations", "returns": [u(r.value)[:80] for r in rets if r.value is not None]})
 
 
-def _check_parse_single(ctx: Ctx, rel: str, fn: ast.FunctionDef) -> None:
+def _private_helpers_called(fn: ast.AST, meths: dict) -> list[tuple[ast.Call, ast.FunctionDef]]:
+    out = []
+    for c in walk_local(fn):
+        if isinstance(c, ast.Call) and isinstance(c.func, ast.Attribute) and isinstance(c.func.value, ast.Name) and c.func.value.id == "self" \
+                and c.func.attr.startswith("_") and c.func.attr in meths and meths[c.func.attr] is not fn:
+            out.append((c, meths[c.func.attr]))
+    return out
+
+
+def _check_parse_single(ctx: Ctx, rel: str, fn0: ast.FunctionDef, meths: dict) -> Optional[tuple[str, ast.FunctionDef]]:
+    """Returns (name, def) of a private helper the row gathering was followed into (one level), else None."""
     q = f"{CLS}._parse_single_equation"
+
+    def cats_of(f):
+        return [c for c in walk_local(f) if isinstance(c, ast.Call) and call_name(c) in ("concatenate", "hstack") and c.args
+                and isinstance(c.args[0], ast.Name)]
+
+    fn, outer_call, followed = fn0, None, None
+    cats = cats_of(fn0)
+    if not cats:
+        hs = [(c, h) for c, h in _private_helpers_called(fn0, meths) if cats_of(h)]
+        if len(hs) == 1:
+            outer_call, fn = hs[0]
+            followed = (fn.name, fn)
+            q = f"{CLS}.{fn.name}"
+            cats = cats_of(fn)
     pm = parent_map(fn)
-    cats = [c for c in walk_local(fn) if isinstance(c, ast.Call) and call_name(c) in ("concatenate", "hstack") and c.args
-            and isinstance(c.args[0], ast.Name)]
     if len(cats) != 1:
         raise Undecided(f"{q}: expected one concatenate(<list of index blocks>), found {len(cats)}")
     L = cats[0].args[0].id
     apps = [c for c in walk_local(fn) if isinstance(c, ast.Call) and isinstance(c.func, ast.Attribute) and u(c.func.value) == L
             and c.func.attr in ("append", "extend", "insert")]
-    if len(apps) != 1 or apps[0].func.attr != "append" or len(apps[0].args) != 1:  # type: ignore[union-attr]
-        raise Undecided(f"{q}: expected a single append to {L}")
-    app = apps[0]
-    loops = _enclosing_loops(pm, app, fn)
-    if not loops or not isinstance(loops[0], ast.For):
-        raise Undecided(f"{q}: index blocks are not appended in a for loop")
-    loop = loops[0]
+    lst = [x for x in _stores(fn, L) if isinstance(x, (ast.Assign, ast.AnnAssign)) and x.value is not None]
+    if not apps and len(lst) == 1 and isinstance(lst[0].value, ast.ListComp) and len(lst[0].value.generators) == 1:
+        comp = lst[0].value
+        gen = comp.generators[0]
+        loop = ast.For(target=gen.target, iter=gen.iter, body=[], orelse=[])
+        ast.copy_location(loop, comp)
+        app_node, app_val = comp, comp.elt
+    else:
+        if len(apps) != 1 or apps[0].func.attr != "append" or len(apps[0].args) != 1:  # type: ignore[union-attr]
+            raise Undecided(f"{q}: expected a single append to {L}")
+        loops = _enclosing_loops(pm, apps[0], fn)
+        if not loops or not isinstance(loops[0], ast.For):
+            raise Undecided(f"{q}: index blocks are not appended in a for loop")
+        loop = loops[0]
+        app_node, app_val = apps[0], apps[0].args[0]
     it_ = loop.iter
     key_t, val_t = loop.target, None
     if isinstance(it_, ast.Call) and isinstance(it_.func, ast.Attribute) and it_.func.attr == "items" and not it_.args \
@@ -432,20 +480,33 @@ def _check_parse_single(ctx: Ctx, rel: str, fn: ast.FunctionDef) -> None:
               f"restricted row indices must be gathered in the order of the equation's image space, not the caller's grid order: {why}",
               construct=f"for ... in {u(loop.iter)} -> {u(src)[:70]}", facts={"source": u(src)})
     stop_t = [n.id for n in ast.walk(loop.target) if isinstance(n, ast.Name)]
-    val = inline_locals(fn, app.args[0], stop=stop_t)
+    val = inline_locals(fn, app_val, stop=stop_t)
     ok_val = (isinstance(val, ast.Subscript) and is_img(val.value) and u(val.slice) == u(key_t)
               and (not ok_src or u(val.value) == u(src))) or (ok_src and val_t is not None and u(val) == u(val_t))
-    ctx.check("R2", ok_val, rel, q, app, "the block appended for a grid is the image-space index array of that same grid",
+    ctx.check("R2", ok_val, rel, q, app_node, "the block appended for a grid is the image-space index array of that same grid",
               construct=f"append {u(val)[:80]}")
     # the equation name used for the lookup is the one the result is stored under
-    ins = [(s, k, v) for D in {u(t) for s in walk_local(fn) if isinstance(s, ast.Return) and s.value is not None for t in [s.value]
-                               if isinstance(s.value, ast.Name)} for (s, k, v) in _dict_inserts(fn, D)]
-    keyed = [(s, k) for s, k, v in ins if v is not None and any(n is cats[0] for n in ast.walk(v))]
+    def returned_dict_inserts(f):
+        return [(s_, k, v) for D in {u(s_.value) for s_ in walk_local(f) if isinstance(s_, ast.Return) and isinstance(s_.value, ast.Name)}
+                for (s_, k, v) in _dict_inserts(f, D)]
+
+    carrier = cats[0] if outer_call is None else outer_call
+    keyed = [(s_, k) for s_, k, v in returned_dict_inserts(fn0) if v is not None and k is not None and any(n is carrier for n in ast.walk(v))]
     if len(keyed) != 1:
-        raise Undecided(f"{q}: the concatenated block is not stored in the returned dict under a key")
-    ok_key = is_img(src) and u(src.slice) == u(keyed[0][1]) if ok_src else True  # type: ignore[union-attr]
-    ctx.check("R2", bool(ok_key), rel, q, keyed[0][0], "the restricted block is stored under the name whose image space was consulted",
+        raise Undecided(f"{CLS}._parse_single_equation: the restricted block is not stored in the returned dict under a key")
+    ok_key = True
+    if ok_src:
+        name_used = src.slice  # type: ignore[union-attr]
+        if outer_call is not None:
+            hp = [a_.arg for a_ in fn.args.args if a_.arg != "self"]
+            bind = {p_: a_ for p_, a_ in zip(hp, outer_call.args)}
+            bind.update({k_.arg: k_.value for k_ in outer_call.keywords if k_.arg})
+            name_used = subst(name_used, bind)
+        ok_key = u(name_used) == u(keyed[0][1])
+    ctx.check("R2", bool(ok_key), rel, f"{CLS}._parse_single_equation", keyed[0][0],
+              "the restricted block is stored under the name whose image space was consulted",
               construct=f"store under {u(keyed[0][1])}")
+    return followed
 
 
 def _grid_kind(e: ast.expr) -> Optional[str]:
@@ -581,27 +642,46 @@ def _check_assemble(ctx: Ctx, rel: str, fn: ast.FunctionDef, cls_methods: dict) 
                     return -s * s2, e2
         return s, e
 
+    def cat_lists(name: str) -> set[str]:
+        """Lists whose concatenation `name` holds ('<empty>' for an explicit empty vector)."""
+        out: set[str] = set()
+
+        def one(v: ast.expr) -> None:
+            if isinstance(v, ast.IfExp):
+                one(v.body)
+                one(v.orelse)
+            elif isinstance(v, ast.Call) and call_name(v) in ("concatenate", "hstack") and v.args and isinstance(v.args[0], ast.Name):
+                out.add(v.args[0].id)
+            elif isinstance(v, ast.Call) and call_name(v) in ("empty", "zeros", "array"):
+                out.add("<empty>")
+            else:
+                raise Undecided(f"{q}: '{name}' is not a concatenation of per-equation blocks: {u(v)[:60]}")
+
+        st = [x for x in _stores(fn, name) if isinstance(x, (ast.Assign, ast.AnnAssign)) and x.value is not None]
+        if not st:
+            raise Undecided(f"{q}: returned vector '{name}' has no definition")
+        for x in st:
+            one(x.value)
+        return out
+
     sF, rF = signed(full[0].value.elts[1])  # type: ignore[union-attr]
     sR, rR = signed(resid[0].value)
     if not isinstance(rF, ast.Name):
         raise Undecided(f"{q}: rhs of the full return is not a (signed) name: {u(full[0].value)}")
     R = rF.id
     ctx.check("R3", sF == -1, rel, q, full[0], "the full arm returns the residual moved to the right-hand side (-rhs)",
-              construct=f"full return rhs sign {sF:+d} on {R}")
+              construct=f"full return rhs sign {sF:+d}")
     if not (isinstance(rR, ast.Name)):
         raise Undecided(f"{q}: residual-only return is not a (signed) name: {u(resid[0].value)}")
-    ctx.check("R3", rR.id == R and sR == sF, rel, q, resid[0],
+    listsF, listsR = cat_lists(R) - {"<empty>"}, cat_lists(rR.id) - {"<empty>"}
+    if len(listsF) != 1:
+        raise Undecided(f"{q}: {R} is not concatenate(<one list>)")
+    Lr = next(iter(listsF))
+    ctx.check("R3", listsR == listsF and sR == sF, rel, q, resid[0],
               "the residual-only arm must return the same vector with the same sign as the full arm",
-              construct=f"residual-only return sign {sR:+d} on {rR.id} (full arm: {sF:+d} on {R})")
-    # R = concatenate(L_rhs); A = vstack(L_mat)
-    r_defs = [s for s in _stores(fn, R) if isinstance(s, ast.Assign)]
-    cat = [s for s in r_defs if isinstance(s.value, ast.Call) and call_name(s.value) in ("concatenate", "hstack") and s.value.args
-           and isinstance(s.value.args[0], ast.Name)]
-    if len(cat) != 1:
-        raise Undecided(f"{q}: {R} is not concatenate(<list>)")
-    Lr = cat[0].value.args[0].id
-    ctx.check("R4", len(r_defs) <= 2 and all(s is cat[0] or (isinstance(s.value, ast.Call) and call_name(s.value) in ("empty", "zeros", "array")) for s in r_defs),
-              rel, q, cat[0], "the residual is the concatenation of the per-equation blocks (or empty)", construct=f"{R} <- {[u(s.value) for s in r_defs]}")
+              construct=f"residual-only return sign {sR:+d} on concatenate({sorted(listsR)}) (full arm: {sF:+d} on concatenate({sorted(listsF)}))")
+    ctx.check("R4", True, rel, q, full[0], "the residual is the concatenation of the per-equation blocks (or empty)",
+              construct=f"{R} <- concatenate({Lr})")
     prod = full[0].value.elts[0]  # type: ignore[union-attr]
     prod_i = inline_locals(fn, prod, stop=params)
     if not (isinstance(prod, ast.BinOp) and isinstance(prod.op, (ast.Mult, ast.MatMult))):
@@ -652,14 +732,20 @@ def _check_assemble(ctx: Ctx, rel: str, fn: ast.FunctionDef, cls_methods: dict) 
         raise Undecided(f"{q}: matrix factor is not a name")
     A = Aexp.id
     a_defs = [s for s in _stores(fn, A) if isinstance(s, ast.Assign)]
-    vst = [s for s in a_defs if isinstance(s.value, ast.Call) and call_name(s.value) in ("vstack", "bmat") and s.value.args and isinstance(s.value.args[0], ast.Name)]
+    def unfmt(x: ast.expr) -> ast.expr:  # strip sparse format conversions
+        while isinstance(x, ast.Call) and isinstance(x.func, ast.Attribute) and x.func.attr in ("tocsr", "tocsc", "tocoo", "asformat") :
+            x = x.func.value
+        return x
+
+    vst = [s for s in a_defs if isinstance(unfmt(s.value), ast.Call) and call_name(unfmt(s.value)) in ("vstack", "bmat") and unfmt(s.value).args
+           and isinstance(unfmt(s.value).args[0], ast.Name)]
     if len(vst) != 1:
-        bad = [s for s in a_defs if isinstance(s.value, ast.Call) and call_name(s.value) in ("hstack", "block_diag")]
+        bad = [s for s in a_defs if isinstance(unfmt(s.value), ast.Call) and call_name(unfmt(s.value)) in ("hstack", "block_diag")]
         if bad:
             ctx.check("R4", False, rel, q, bad[0], "equation blocks must be stacked row-wise (vstack)", construct=u(bad[0].value)[:80])
             return
         raise Undecided(f"{q}: {A} is not vstack(<list>)")
-    Lm = vst[0].value.args[0].id
+    Lm = unfmt(vst[0].value).args[0].id
     ctx.check("R4", True, rel, q, vst[0], "equation blocks are stacked row-wise", construct=f"{A} <- vstack({Lm})")
     empt = [s for s in a_defs if s is not vst[0]]
     ok_e = all(isinstance(s.value, ast.Call) and call_name(s.value) in ("csr_matrix", "csc_matrix", "coo_matrix", "csr_array") and s.value.args
@@ -709,6 +795,20 @@ def _check_assemble(ctx: Ctx, rel: str, fn: ast.FunctionDef, cls_methods: dict) 
                 if isinstance(src, ast.Call) and call_name(src) in SET_CTORS | {"sorted", "reversed"}:
                     return "bad", f"operators listed from {u(src)[:40]}"
             raise Undecided(f"{q}: operator list passed to evaluate is not [self._equations[n] for n in <parsed dict>]: {u(ops)[:80] if ops is not None else None}")
+        if isinstance(b, ast.ListComp) and len(b.generators) == 1 and not b.generators[0].ifs:
+            g_ = b.generators[0]
+            src_ = _strip_keys(g_.iter)
+            if isinstance(src_, ast.Name):
+                if u(b.elt) == u(g_.target):
+                    return "names", src_.id
+                if isinstance(b.elt, ast.Subscript) and u(b.elt.value) == src_.id and u(b.elt.slice) == u(g_.target):
+                    return "rows", src_.id
+            if isinstance(src_, ast.Call) and isinstance(src_.func, ast.Attribute) and src_.func.attr == "items" and isinstance(src_.func.value, ast.Name) \
+                    and isinstance(g_.target, ast.Tuple) and len(g_.target.elts) == 2:
+                if u(b.elt) == u(g_.target.elts[0]):
+                    return "names", src_.func.value.id
+                if u(b.elt) == u(g_.target.elts[1]):
+                    return "rows", src_.func.value.id
         if isinstance(b, ast.Name):
             return "names", b.id
         if _is_self_attr(b, "_equations"):
@@ -732,6 +832,18 @@ def _check_assemble(ctx: Ctx, rel: str, fn: ast.FunctionDef, cls_methods: dict) 
             raise Undecided(f"{q}: block loop is neither a zip nor a loop over one sequence: {u(z)[:60]}")
         roles = {}
         for t, a in pairs:
+            ai = inline_locals(fn, a, stop=stop_names)
+            ai = ai.args[0] if isinstance(ai, ast.Call) and call_name(ai) in ("list", "tuple") and len(ai.args) == 1 else ai
+            if isinstance(ai, ast.Call) and isinstance(ai.func, ast.Attribute) and ai.func.attr == "items" and not ai.args \
+                    and isinstance(ai.func.value, ast.Name) and isinstance(t, ast.Tuple) and len(t.elts) == 2:
+                # (name, row) pairs of the parsed dict: two roles from one sequence
+                d = ai.func.value.id
+                Dname.append(d)
+                ctx.check("R3", d == Dname[0], rel, q, a,
+                          f"zipped sequence {u(a)} must derive from the one dict returned by _parse_equations",
+                          construct=f"zip arg {u(a)} -> names+rows({d})", facts={"role": "names+rows", "source": d})
+                roles["names"], roles["rows"] = u(t.elts[0]), u(t.elts[1])
+                continue
             role, d = classify_zip_arg(a)
             ok = role != "bad"
             if ok:
@@ -780,94 +892,132 @@ def _check_assemble(ctx: Ctx, rel: str, fn: ast.FunctionDef, cls_methods: dict) 
     else:
         raise Undecided(f"{q}: expected two self.evaluate calls (with and without derivative)")
 
-    # ---- branch-wise lock-step -----------------------------------------------------------------
-    def rebinding_aliases(loop: ast.For, name: str) -> None:
-        # `val = np.asarray(val)` style re-bindings keep the provenance
-        for s in walk_local(loop):
-            if isinstance(s, ast.Assign) and len(s.targets) == 1 and u(s.targets[0]) == name:
-                base, sel = _norm_sel(s.value)
-                if not (u(base) == name and sel is None):
-                    raise Undecided(f"{q}: '{name}' is re-bound inside the loop to {u(s.value)[:60]}")
-
-    def guard_sel(stmt: ast.AST, loop: ast.For, row: str) -> Optional[bool]:
-        """True if stmt is under `row is not None`, False if under its negation, None if unguarded."""
-        cur = stmt
-        while cur in pm and pm[cur] is not loop:
-            par = pm[cur]
-            if isinstance(par, ast.If):
-                t = par.test
-                pos = None
-                if isinstance(t, ast.Compare) and len(t.ops) == 1 and u(t.left) == row and u(t.comparators[0]) == "None":
-                    pos = True if isinstance(t.ops[0], ast.IsNot) else (False if isinstance(t.ops[0], ast.Is) else None)
-                if pos is not None:
-                    return pos if any(cur is s for s in par.body) else (not pos)
-            cur = par
+    # ---- lock-step, decided per case (row selector given / absent) by interpreting the loop body ------------------
+    def none_test(t: ast.expr, row: str) -> Optional[bool]:
+        """True if `t` holds exactly when the row selector is given, False if exactly when it is None."""
+        if isinstance(t, ast.UnaryOp) and isinstance(t.op, ast.Not):
+            r_ = none_test(t.operand, row)
+            return None if r_ is None else (not r_)
+        if isinstance(t, ast.Compare) and len(t.ops) == 1 and u(t.left) == row and u(t.comparators[0]) == "None":
+            if isinstance(t.ops[0], ast.IsNot):
+                return True
+            if isinstance(t.ops[0], ast.Is):
+                return False
         return None
 
-    def check_loop(loop: ast.For, roles: dict, with_mat: bool, tag: str) -> list[tuple[bool, Optional[str]]]:
-        row, res = roles["rows"], roles["results"]
-        rebinding_aliases(loop, res)
-        apps_r = appends_to(loop, Lr)
-        apps_m = appends_to(loop, Lm) if with_mat else []
-        blocks: dict[int, dict] = {}
-        for c in apps_r + apps_m:
-            st = enclosing_stmt(pm, c)
-            b = _block(pm, st)
-            d = blocks.setdefault(id(b), {"block": b, "r": [], "m": [], "stmt": st})
-            d["r" if c in apps_r else "m"].append(c)
-        sels = []
-        for d in blocks.values():
-            g = guard_sel(d["stmt"], loop, row)
-            if len(d["r"]) != 1 or (with_mat and len(d["m"]) != 1):
-                ctx.check("R3", False, rel, q, d["stmt"],
-                          f"[{tag}] every branch must append exactly one residual block" + (" and one Jacobian block" if with_mat else ""),
-                          construct=f"[{tag}] branch(row given={g}) appends rhs x{len(d['r'])}, mat x{len(d['m'])}")
+    def resolve(e: ast.expr, env: dict, row: str, given: bool) -> ast.expr:
+        import copy
+
+        class Pick(ast.NodeTransformer):
+            def visit_IfExp(self_, n: ast.IfExp):
+                pos = none_test(n.test, row)
+                if pos is None:
+                    return self_.generic_visit(n)
+                return self_.visit(n.body if pos == given else n.orelse)
+        return Pick().visit(copy.deepcopy(subst(e, env)))
+
+    def run_case(stmts: list, row: str, given: bool, env: dict, events: list, guard: Optional[ast.expr], lists: tuple) -> None:
+        for st_ in stmts:
+            if isinstance(st_, ast.If):
+                pos = none_test(st_.test, row)
+                if pos is not None:
+                    run_case(st_.body if pos == given else st_.orelse, row, given, env, events, guard, lists)
+                else:
+                    g_ = resolve(st_.test, env, row, given)
+                    run_case(st_.body, row, given, dict(env), events, g_, lists)
+                    run_case(st_.orelse, row, given, dict(env), events, ast.UnaryOp(op=ast.Not(), operand=g_), lists)
+                    for n_ in ast.walk(st_):
+                        if isinstance(n_, ast.Name) and isinstance(n_.ctx, ast.Store):
+                            env.pop(n_.id, None)
                 continue
-            envb = _env_before(d["block"], enclosing_stmt(pm, d["r"][0]))
-            r_arg = subst(d["r"][0].args[0], envb)
-            rb, rs = _norm_sel(r_arg)
-            want_r = f"{res}.val" if with_mat else res
-            if u(rb) != want_r:
-                raise Undecided(f"{q}: [{tag}] residual block is not derived from the evaluated operator: {u(r_arg)}")
-            want_sel = row if g else None
-            if g is None:
-                raise Undecided(f"{q}: [{tag}] append not guarded by a test of the row selector against None")
-            got_r = u(rs) if rs is not None else None
-            ctx.check("R3", got_r == want_sel, rel, q, d["r"][0],
-                      f"[{tag}] branch with row selector {'given' if g else 'absent'}: residual block must be "
-                      f"{want_r}{'[' + row + ']' if g else ''}",
-                      construct=f"[{tag}] row given={g}: rhs.append({u(r_arg)})")
-            if with_mat:
-                m_arg = subst(d["m"][0].args[0], _env_before(d["block"], enclosing_stmt(pm, d["m"][0])))
-                mb, ms = _norm_sel(m_arg)
-                if u(mb) != f"{res}.jac":
-                    if u(mb).endswith(".jac") or u(mb).endswith(".val"):
-                        ctx.check("R3", False, rel, q, d["m"][0], f"[{tag}] Jacobian block must be {res}.jac of the same evaluated operator",
-                                  construct=f"[{tag}] mat.append({u(m_arg)})")
-                        continue
-                    raise Undecided(f"{q}: [{tag}] Jacobian block is not <result>.jac: {u(m_arg)}")
-                got_m = u(ms) if ms is not None else None
-                ctx.check("R3", got_m == got_r and got_m == want_sel, rel, q, d["m"][0],
-                          f"[{tag}] Jacobian rows and residual entries must be selected with the same row selector "
-                          f"(mat: {got_m}, rhs: {got_r})",
-                          construct=f"[{tag}] row given={g}: mat.append({u(m_arg)}) / rhs.append({u(r_arg)})")
-            sels.append((g, got_r))
-            d["guard"] = g
-            d["rhs_expr"] = r_arg
-        guards = sorted(str(d.get("guard")) for d in blocks.values())
-        ctx.check("R3", guards == ["False", "True"], rel, q, loop,
-                  f"[{tag}] one branch for restricted rows and one for whole equations", construct=f"[{tag}] branches {guards}")
-        check_loop.blocks = blocks  # type: ignore[attr-defined]
-        return sels
+            if isinstance(st_, (ast.Assign, ast.AnnAssign)) and st_.value is not None:
+                tg_ = st_.targets[0] if isinstance(st_, ast.Assign) else st_.target
+                if isinstance(tg_, ast.Name):
+                    v_ = resolve(st_.value, env, row, given)
+                    env[tg_.id] = v_
+                    events.append(("assign", tg_.id, v_, st_, guard))
+                    continue
+                if isinstance(tg_, ast.Subscript) and _is_self_attr(tg_.value, "assembled_equation_indices"):
+                    events.append(("index", resolve(tg_.slice, env, row, given), resolve(st_.value, env, row, given), st_, guard))
+                    continue
+            if isinstance(st_, ast.AugAssign) and isinstance(st_.target, ast.Name):
+                events.append(("aug", st_.target.id, (st_.op, resolve(st_.value, env, row, given)), st_, guard))
+                env.pop(st_.target.id, None)
+                continue
+            if isinstance(st_, ast.Expr) and isinstance(st_.value, ast.Call) and isinstance(st_.value.func, ast.Attribute):
+                c_ = st_.value
+                if c_.func.attr == "append" and u(c_.func.value) in lists and len(c_.args) == 1:
+                    if guard is not None:
+                        raise Undecided(f"{q}: block appended under an unrecognised condition {u(guard)[:50]}")
+                    events.append(("append", u(c_.func.value), resolve(c_.args[0], env, row, given), c_, guard))
+                    continue
+                if c_.func.attr == "update" and _is_self_attr(c_.func.value, "assembled_equation_indices") and len(c_.args) == 1 \
+                        and isinstance(c_.args[0], ast.Dict) and len(c_.args[0].keys) == 1 and c_.args[0].keys[0] is not None:
+                    events.append(("index", resolve(c_.args[0].keys[0], env, row, given), resolve(c_.args[0].values[0], env, row, given), st_, guard))
+                    continue
+            # anything else must not touch the block lists or the index dict
+            for n_ in ast.walk(st_):
+                if (isinstance(n_, ast.Name) and n_.id in lists) or _is_self_attr(n_, "assembled_equation_indices"):
+                    raise Undecided(f"{q}: unrecognised statement touching the block lists: {u(st_)[:70]}")
 
-    selF = check_loop(full_loops[0], rolesF, True, "full")
-    blocksF = check_loop.blocks  # type: ignore[attr-defined]
-    selR = check_loop(res_loops[0], rolesR, False, "residual-only")
-    ctx.sample({"rule": "R3", "full_arm_selectors": [list(map(str, s)) for s in selF], "residual_arm_selectors": [list(map(str, s)) for s in selR]})
+    def length_arg(e: ast.expr, last_rhs: Optional[ast.expr]) -> Optional[ast.expr]:
+        """E if e is len(E) / E.size / E.shape[0]; `<rhs list>[-1]` is resolved to the block appended last."""
+        inner = None
+        if isinstance(e, ast.Call) and u(e.func) == "len" and len(e.args) == 1:
+            inner = e.args[0]
+        elif isinstance(e, ast.Attribute) and e.attr == "size":
+            inner = e.value
+        elif isinstance(e, ast.Subscript) and isinstance(e.value, ast.Attribute) and e.value.attr == "shape" and u(e.slice) == "0":
+            inner = e.value.value
+        if inner is None:
+            return None
+        if isinstance(inner, ast.Subscript) and u(inner.value) == Lr and u(inner.slice) == "-1":
+            return last_rhs
+        return inner
 
-    # ---- assembled_equation_indices ----------------------------------------------------------------
+    def check_case(loop: ast.For, roles: dict, with_mat: bool, tag: str, given: bool) -> tuple:
+        row, res = roles["rows"], roles["results"]
+        events: list = []
+        run_case(loop.body, row, given, {}, events, None, (Lr, Lm))
+        apps_r = [e_ for e_ in events if e_[0] == "append" and e_[1] == Lr]
+        apps_m = [e_ for e_ in events if e_[0] == "append" and e_[1] == Lm]
+        node = (apps_r + apps_m)[0][3] if (apps_r + apps_m) else loop
+        if len(apps_r) != 1 or (with_mat and len(apps_m) != 1) or (not with_mat and apps_m):
+            ctx.check("R3", False, rel, q, node,
+                      f"[{tag}] with the row selector {'given' if given else 'absent'} exactly one residual block" +
+                      (" and one Jacobian block" if with_mat else "") + " must be appended per equation",
+                      construct=f"[{tag}] row given={given}: appends rhs x{len(apps_r)}, mat x{len(apps_m)}")
+            return None, events
+        r_arg = apps_r[0][2]
+        rb, rs = _norm_sel(r_arg)
+        want_r = f"{res}.val" if with_mat else res
+        if u(rb) != want_r:
+            raise Undecided(f"{q}: [{tag}] residual block is not derived from the evaluated operator: {u(r_arg)}")
+        want_sel = row if given else None
+        got_r = u(rs) if rs is not None else None
+        ctx.check("R3", got_r == want_sel, rel, q, apps_r[0][3],
+                  f"[{tag}] with the row selector {'given' if given else 'absent'} the residual block must be "
+                  f"{want_r}{'[' + row + ']' if given else ''}",
+                  construct=f"[{tag}] row given={given}: rhs.append({u(r_arg)})")
+        if with_mat:
+            m_arg = apps_m[0][2]
+            mb, ms = _norm_sel(m_arg)
+            if u(mb) != f"{res}.jac":
+                if u(mb).endswith(".jac") or u(mb).endswith(".val"):
+                    ctx.check("R3", False, rel, q, apps_m[0][3], f"[{tag}] Jacobian block must be {res}.jac of the same evaluated operator",
+                              construct=f"[{tag}] mat.append({u(m_arg)})")
+                    return r_arg, events
+                raise Undecided(f"{q}: [{tag}] Jacobian block is not <result>.jac: {u(m_arg)}")
+            got_m = u(ms) if ms is not None else None
+            ctx.check("R3", got_m == got_r and got_m == want_sel, rel, q, apps_m[0][3],
+                      f"[{tag}] Jacobian rows and residual entries must be selected with the same row selector "
+                      f"(mat: {got_m}, rhs: {got_r})",
+                      construct=f"[{tag}] row given={given}: mat.append({u(m_arg)}) / rhs.append({u(r_arg)})")
+        return r_arg, events
+
     loop = full_loops[0]
     top_stmt = _top_in(pm, loop, fn) if pm[loop] is not fn else loop
+    # the index dict is reset before the Jacobian blocks are recorded
     resets = []
     for s_ in walk_local(fn):
         if isinstance(s_, (ast.Assign, ast.AnnAssign)) and s_.value is not None:
@@ -883,92 +1033,84 @@ def _check_assemble(ctx: Ctx, rel: str, fn: ast.FunctionDef, cls_methods: dict) 
         par_ = pm[s_]
         guarded_ok = par_ is fn or (isinstance(par_, ast.If) and pm[par_] is fn and s_ in par_.body and isinstance(par_.test, ast.Name)
                                      and par_.test.id in params)
-        if empty_ and guarded_ok and body_.index(t_) < body_.index(top_stmt):
+        if empty_ and guarded_ok and body_.index(t_) <= body_.index(top_stmt) and s_.lineno < loop.lineno:
             ok_reset = True
     ctx.check("R3", ok_reset, rel, q, resets[0] if resets else loop,
               "assembled_equation_indices must be reset to an empty dict before the Jacobian blocks are recorded "
               "(otherwise names from an earlier, different assembly survive)",
               construct=f"reset assembled_equation_indices: {[u(s_) for s_ in resets]}")
-    upd = [s for s in walk_local(loop) if isinstance(s, (ast.Expr, ast.Assign)) and any(
-        _is_self_attr(n, "assembled_equation_indices") for n in ast.walk(s))]
-    if len(upd) != 1:
-        raise Undecided(f"{q}: expected one update of assembled_equation_indices in the loop")
-    st = upd[0]
-    if isinstance(st, ast.Expr) and isinstance(st.value, ast.Call) and st.value.args and isinstance(st.value.args[0], ast.Dict) and len(st.value.args[0].keys) == 1:
-        key, val = st.value.args[0].keys[0], st.value.args[0].values[0]
-    elif isinstance(st, ast.Assign) and isinstance(st.targets[0], ast.Subscript):
-        key, val = st.targets[0].slice, st.value
-    else:
-        raise Undecided(f"{q}: unrecognised update of assembled_equation_indices")
-    ctx.check("R3", u(key) == rolesF["names"], rel, q, st, "indices are recorded under the equation name zipped with this block",
-              construct=f"assembled_equation_indices[{u(key)}]")
-    if pm[st] is not loop:
-        raise Undecided(f"{q}: index bookkeeping is not at loop level")
-    lbody = loop.body
-    env: dict[str, ast.AST] = {}
-    for s in lbody[: lbody.index(st)]:
-        if isinstance(s, ast.Assign) and len(s.targets) == 1 and isinstance(s.targets[0], ast.Name):
-            env[s.targets[0].id] = subst(s.value, env)
-    v = subst(val, env)
-    if not (isinstance(v, ast.BinOp) and isinstance(v.op, ast.Add)):
-        raise Undecided(f"{q}: recorded indices are not `arange(n) + start`: {u(v)}")
-    ar, start = (v.left, v.right) if isinstance(v.left, ast.Call) else (v.right, v.left)
-    if not (isinstance(ar, ast.Call) and call_name(ar) == "arange" and len(ar.args) == 1 and isinstance(start, ast.Name) and isinstance(ar.args[0], ast.Name)):
-        raise Undecided(f"{q}: recorded indices are not `arange(<length name>) + <start name>`: {u(v)}")
-    BL, S = ar.args[0].id, start.id
-    # block length per branch == len(appended residual block)
-    for d in blocksF.values():
-        if "rhs_expr" not in d:
+    S_names: set[str] = set()
+    sel_sample = {}
+    for given in (True, False):
+        r_arg, events = check_case(loop, rolesF, True, "full", given)
+        sel_sample[f"full/{given}"] = u(r_arg) if r_arg is not None else None
+        if r_arg is None:
             continue
-        bl = [s for s in d["block"] if isinstance(s, ast.Assign) and u(s.targets[0]) == BL]
-        if len(bl) != 1:
-            raise Undecided(f"{q}: '{BL}' is not assigned once in each branch")
-        e = bl[0].value
-        ok = False
-        if isinstance(e, ast.Call) and u(e.func) == "len" and len(e.args) == 1:
-            a = e.args[0]
-            if isinstance(a, ast.Subscript) and u(a.value) == Lr and u(a.slice) == "-1":
-                ok = d["block"].index(bl[0]) > d["block"].index(enclosing_stmt(pm, d["r"][0]))
-            else:
-                ok = _norm_pair(subst(a, _env_before(d["block"], bl[0]))) == _norm_pair(d["rhs_expr"])
-        elif isinstance(e, ast.Attribute) and e.attr == "size":
-            ok = _norm_pair(subst(e.value, _env_before(d["block"], bl[0]))) == _norm_pair(d["rhs_expr"])
-        else:
-            raise Undecided(f"{q}: unrecognised block length {u(e)}")
-        ctx.check("R3", ok, rel, q, bl[0],
+        idx = [e_ for e_ in events if e_[0] == "index"]
+        if len(idx) != 1 or idx[0][4] is not None:
+            raise Undecided(f"{q}: expected one unconditional update of assembled_equation_indices per equation")
+        _, key, val, st, _g = idx[0]
+        ctx.check("R3", u(key) == rolesF["names"], rel, q, st, "indices are recorded under the equation name zipped with this block",
+                  construct=f"row given={given}: assembled_equation_indices[{u(key)}]")
+        if not (isinstance(val, ast.BinOp) and isinstance(val.op, ast.Add)):
+            raise Undecided(f"{q}: recorded indices are not `arange(n) + start`: {u(val)[:80]}")
+        ar, start = (val.left, val.right) if isinstance(val.left, ast.Call) else (val.right, val.left)
+        if not (isinstance(ar, ast.Call) and call_name(ar) == "arange" and len(ar.args) >= 1 and isinstance(start, ast.Name)):
+            raise Undecided(f"{q}: recorded indices are not `arange(<length>) + <start name>`: {u(val)[:80]}")
+        S = start.id
+        S_names.add(S)
+        # the rhs block appended before the length was taken
+        order = [e_[3] for e_ in events]
+        X = length_arg(ar.args[0], r_arg)
+        if X is None:
+            raise Undecided(f"{q}: unrecognised block length {u(ar.args[0])[:60]}")
+        ctx.check("R3", _norm_pair(X) == _norm_pair(r_arg), rel, q, st,
                   "the recorded block length must be the length of the residual block just appended (restricted blocks are shorter than the equation)",
-                  construct=f"row given={d.get('guard')}: {u(bl[0])} vs appended {u(d['rhs_expr'])}")
-    # start: init 0, advance to one past the block
-    s_stores = _stores(fn, S)
-    init = [s for s in s_stores if not _within(pm, s, loop)]
-    adv = [s for s in s_stores if _within(pm, s, loop)]
-    ok_init = len(init) == 1 and isinstance(init[0], ast.Assign) and isinstance(init[0].value, ast.Constant) and init[0].value.value == 0
-    ctx.check("R3", ok_init, rel, q, init[0] if init else loop, "row index bookkeeping starts at 0", construct=f"{S} init {[u(s) for s in init]}")
-    if len(adv) != 1:
-        ctx.check("R3", False, rel, q, loop, f"'{S}' must be advanced exactly once per block", construct=f"{S} advances {[u(s) for s in adv]}")
-    else:
-        a = adv[0]
-        idx_name = val.id if isinstance(val, ast.Name) else None
+                  construct=f"row given={given}: length of {u(X)} vs appended {u(r_arg)}")
+        # advance of the start: one past the block
+        advs = [e_ for e_ in events if (e_[0] == "aug" and e_[1] == S) or (e_[0] == "assign" and e_[1] == S)]
+        if len(advs) != 1:
+            ctx.check("R3", False, rel, q, loop, f"'{S}' must be advanced exactly once per block",
+                      construct=f"row given={given}: {S} advances {[u(e_[3]) for e_ in advs]}")
+            continue
+        a_ = advs[0]
         ok = None
-        if isinstance(a, ast.AugAssign) and isinstance(a.op, ast.Add):
-            ok = u(a.value) == BL and pm[a] is loop
-        elif isinstance(a, ast.Assign):
-            e = a.value
+        if order.index(a_[3]) < order.index(st):
+            ok = False  # moved before the indices of this block were recorded
+        elif a_[0] == "aug":
+            op_, v_ = a_[2]
+            Xa = length_arg(v_, r_arg)
+            if isinstance(op_, ast.Add) and Xa is not None:
+                ok = _norm_pair(Xa) == _norm_pair(r_arg) and a_[4] is None
+        else:
+            e = a_[2]
             if isinstance(e, ast.BinOp) and isinstance(e.op, ast.Add):
-                l, r = e.left, e.right
-                if {u(l), u(r)} == {S, BL}:
-                    ok = pm[a] is loop
-                elif idx_name and u(l) == f"{idx_name}[-1]" and isinstance(r, ast.Constant):
-                    par = pm[a]
-                    guarded = isinstance(par, ast.If) and isinstance(par.test, ast.Compare) and u(par.test.left) == BL \
-                        and isinstance(par.test.ops[0], ast.Gt) and u(par.test.comparators[0]) == "0" and pm[par] is loop
-                    ok = r.value == 1 and guarded
-            elif idx_name and u(e) == f"{idx_name}[-1]":
+                parts = [e.left, e.right]
+                names_ = [x for x in parts if isinstance(x, ast.Name) and x.id == S]
+                lens_ = [length_arg(x, r_arg) for x in parts]
+                if names_ and any(l_ is not None for l_ in lens_):
+                    Xa = [l_ for l_ in lens_ if l_ is not None][0]
+                    ok = _norm_pair(Xa) == _norm_pair(r_arg) and a_[4] is None
+                else:
+                    last = [x for x in parts if isinstance(x, ast.Subscript) and u(x.slice) == "-1" and u(x.value) == u(val)]
+                    one = [x for x in parts if isinstance(x, ast.Constant)]
+                    if last and one:
+                        ok = one[0].value == 1
+            elif isinstance(e, ast.Subscript) and u(e.slice) == "-1" and u(e.value) == u(val):
                 ok = False
         if ok is None:
-            raise Undecided(f"{q}: unrecognised advance of '{S}': {u(a)}")
-        ctx.check("R3", bool(ok), rel, q, a, f"'{S}' must move to one past the last index of the block just recorded",
-                  construct=f"advance {u(a)}")
+            raise Undecided(f"{q}: unrecognised advance of '{S}': {u(a_[3])}")
+        ctx.check("R3", bool(ok), rel, q, a_[3], f"'{S}' must move to one past the last index of the block just recorded",
+                  construct=f"row given={given}: advance {u(a_[3])}")
+    for given in (True, False):
+        r_arg, _ev = check_case(res_loops[0], rolesR, False, "residual-only", given)
+        sel_sample[f"residual-only/{given}"] = u(r_arg) if r_arg is not None else None
+    ctx.sample({"rule": "R3", "appended_residual_blocks (arm/row given)": sel_sample})
+    for S in sorted(S_names):
+        init = [x for x in _stores(fn, S) if not _within(pm, x, loop)]
+        ok_init = len(init) == 1 and isinstance(init[0], ast.Assign) and isinstance(init[0].value, ast.Constant) and init[0].value.value == 0 \
+            and init[0].lineno < loop.lineno
+        ctx.check("R3", ok_init, rel, q, init[0] if init else loop, "row index bookkeeping starts at 0", construct=f"{S} init {[u(x) for x in init]}")
 
 
 def _env_before(block: list[ast.stmt], stmt: ast.AST) -> dict[str, ast.AST]:
@@ -1046,7 +1188,9 @@ def run(ctx: Ctx) -> None:
     _check_sets(ctx, par_mod.rel, "AdParser.evaluate", par_mod.func("AdParser.evaluate"), judge=True)
     # R2
     _check_parse_equations(ctx, mod.rel, meths["_parse_equations"])
-    _check_parse_single(ctx, mod.rel, meths["_parse_single_equation"])
+    followed = _check_parse_single(ctx, mod.rel, meths["_parse_single_equation"], meths)
+    if followed is not None:  # sets used in a helper the row gathering was moved into are judged as well
+        _check_sets(ctx, mod.rel, f"{CLS}.{followed[0]}", followed[1], judge=True)
     _check_set_equation(ctx, mod.rel, meths["set_equation"])
     # R3 / R4
     _check_assemble(ctx, mod.rel, meths["assemble"], meths)
